@@ -1,4 +1,5 @@
 import Cutadapt.Properties.C01
+import Cutadapt.Properties.C08
 import Cutadapt.Proofs.ModsRounds
 /-! Bridge to C01: matches of well-formed adapters have in-bounds coordinates, so the hypothesis `AdaptersInBounds`
     of the mask / lowercase theorems is discharged by the soundness of `match_to`. Core Lean only. -/
@@ -9,6 +10,9 @@ open Cutadapt.Adapters
 def Matchable.WF : Matchable → Prop
   | .single a => C01.AdapterWF a
   | .linked f b _ _ _ => C01.AdapterWF f ∧ C01.AdapterWF b
+  | .indexed ix _ =>
+    -- the index object is what `AdapterIndex.__init__` builds from its (well-formed, wildcard-free) adapters
+    ix = Index.makeIndex Index.hashOps ix.adapters ix.isPrefix ∧ ∀ a ∈ ix.adapters, C08.IsACGT a.seq ∧ C01.AdapterWF a
 
 theorem matchTo_inBounds (a : Adapter) (h : C01.AdapterWF a) (s : Bytes) (mt : SingleMatch)
     (hm : Adapters.matchTo a s = some mt) : MatchRec.InBounds ⟨mt, s⟩ := by
@@ -25,6 +29,20 @@ theorem adaptersInBounds_of_wf (ads : List Matchable) (h : ∀ a ∈ ads, a.WF) 
     simp only [AnyMatch.parts, List.mem_singleton] at hp
     subst hp
     exact matchTo_inBounds ad hwf s mt hmt
+  | indexed ix ids =>
+    obtain ⟨hix, hads⟩ := hwf
+    simp only [Matchable.matchTo, Option.map_eq_some_iff] at hm
+    obtain ⟨im, him, rfl⟩ := hm
+    simp only [AnyMatch.parts, List.mem_singleton] at hp
+    subst hp
+    rw [hix] at him
+    have hre : Index.RealignInside ix.adapters := fun a ha affix mt hmt => matchTo_inBounds a (hads a ha).2 affix mt hmt
+    obtain ⟨c0, c1, c2, _⟩ := C08.index_coordinates_in_read Index.hashOps C08.dict_instances_lawful.2 ix.adapters ix.isPrefix s
+      (fun a ha => (hads a ha).1) hre im him
+    refine ⟨?_, c2⟩
+    show (Matchable.ofIndexMatch ix.isPrefix im).rstart ≤ (Matchable.ofIndexMatch ix.isPrefix im).rstop
+    simp only [Matchable.ofIndexMatch]
+    omega
   | linked f b fr br nm =>
     obtain ⟨wf, wb⟩ := hwf
     simp only [Matchable.matchTo] at hm
